@@ -134,7 +134,8 @@ def _spec(form: str):
     codes = [{'L_x': 3, 'L_y': 5}, {'L_x': 4, 'L_y': 6}, {'L_x': 5, 'L_y': 3}]
     noises = [{'r_x': 0.11}, {'r_x': 0.12}, {'r_x': 0.13}, {'r_y': 0.11}]
     decs = [{'osd_order': 21}, {'osd_order': 22}]
-    rates = [0.0, 0.031, 0.032, 0.033, 0.034]          # the rate 0 is a legitimate (falsy) grid point
+    # the rate 0 is a legitimate (falsy) grid point; rates of the rare-event regime differ beyond the sixth decimal
+    rates = [0.0, 2e-07, 4e-07, 2.5e-06, 0.031, 0.032, 0.033, 0.034]
     if form == 'list-params':
         codes = [[3, 5], [4, 6], [5, 3]]
         noises = [[0.11, 0.21, 0.31], [0.12, 0.22, 0.32, 'XZZX'], [0.13, 0.23, 0.33, 'XY', {'deformation_axis': 'x'}],
@@ -180,7 +181,12 @@ class _HSim(Hooks):
             o.fields['_ctor'] = (func.ci.name, list(args), dict(kwargs))
             return o
         if isinstance(func, Ext) and func.name == 'itertools.product':
-            return list(itertools.product(*[list(a) for a in args]))
+            from ..interp import GenList
+            seqs = [list(a) for a in args]
+            for a in args:
+                if isinstance(a, GenList):
+                    del a[:]                  # a generator / map object handed to product is exhausted by it
+            return list(itertools.product(*seqs))
         if isinstance(func, Ext) and func.name in ('json.dumps', 'builtins.repr', 'builtins.str', 'builtins.hash') \
                 and args and not kwargs.get('cls'):
             import json as _json
